@@ -268,6 +268,7 @@ def urlOrSlash (url : Str) : Str := if url.isEmpty then [47] else url
 /-- urllib3 `putrequest` + `http.client.putrequest`: the buffered request line and header lines -/
 def putrequest (cfg : Cfg) (meth url : Str) (skipHost skipAE : Bool) : Except Exc (Bytes × List Hdr) :=
   if hasNonToken meth then .error .valueError           -- urllib3's token check
+  else if meth.isEmpty then .error .valueError          -- `if not method`
   else if hcMethodBad meth then .error .valueError      -- _validate_method
   else if hcUrlBad (urlOrSlash url) then .error .invalidURL      -- _validate_path(url or '/')
   else
@@ -604,11 +605,10 @@ def sendHistory (lvl : Level) (cfg : Cfg) (target : Str) (chunked : Bool) : List
 def isH2NameC (c : Nat) : Bool :=
   isLowerC c || isDigitC c || [33, 35, 36, 37, 38, 39, 42, 43, 45, 46, 94, 95, 96, 124, 126].contains c
 
-/-- `RE_IS_LEGAL_HEADER_NAME = rb"^[!#$%&'*+\-.^_`|~0-9a-z]+$"` used with `.match`: Python's `$`
-also matches before one trailing line feed. -/
+/-- `RE_IS_LEGAL_HEADER_NAME = rb"^[!#$%&'*+\-.^_`|~0-9a-z]+\Z"` used with `.match`: `\Z` matches at
+the very end only (unlike `$`, not before a trailing line feed), so this is a full match. -/
 def h2LegalName (b : Bytes) : Bool :=
-  let core := if b.getLast? = some 10 then b.dropLast else b
-  !core.isEmpty && core.all isH2NameC
+  !b.isEmpty && b.all isH2NameC
 
 def h2EdgeC (c : Nat) : Bool := c == 32 || c == 13 || c == 10 || c == 9
 
